@@ -214,6 +214,30 @@ impl Family for Fam {
                     vec![-1]
                 }
             }
+            15 => {
+                let compressed = a[0] != 0;
+                match self.slot.take() {
+                    None => vec![-996],
+                    Some(c) => {
+                        let b = ser(&c, compressed);
+                        match CompactThetaSketch::deserialize_with_seed(&b, self.seed) {
+                            Ok(d) => {
+                                query_compact(&d);
+                                let dc = dump_compact(&c);
+                                let mut ob = vec![dc.len() as i128];
+                                ob.extend(dc);
+                                ob.extend(dump_compact(&d));
+                                ob.extend(ser(&d, compressed).iter().map(|x| *x as i128));
+                                ob.push(-2);
+                                ob.extend(b.iter().map(|x| *x as i128));
+                                self.slot = Some(d);
+                                ob
+                            }
+                            Err(_) => vec![ERR],
+                        }
+                    }
+                }
+            }
             _ => vec![PANIC],
         }
     }
